@@ -171,6 +171,35 @@ def judge_gqr_case(ctx, case, res, J, idx, label, want_counts=True):
     return True
 
 
+def tie_deviation(ctx, case, res, J, N):
+    """True iff the real trace leaves the supplied unconstrained ranking A at a step j < N where A[j] was NOT zeroed
+    and A[j] and the real pick have exactly equal residual norms: GQR broke an exact tie differently from the
+    ranking it was given (hypothesis `GqrSetup.hA` of the theorems fails for this input)."""
+    A = case.gqr["all_sensors"].tolist()
+    r = res["ranking"]
+    masks = greedy.model_masks(ctx, case, res)
+    n = case.B.shape[0]
+    p = list(range(n))
+    for j in range(N):
+        cands = p[j:]
+        if r[j] != A[j]:
+            if masks is None or A[j] in masks[j] or A[j] not in cands:
+                return False
+            n2 = dict(zip(cands, J.verdicts[j]["cand_n2"]))
+            return n2.get(A[j]) == n2.get(r[j])
+        i = p.index(r[j], j)
+        p[j], p[i] = p[i], p[j]
+    return False
+
+
+def corpus_cases():
+    import glob, json, os
+    out = []
+    for f in sorted(glob.glob(str(C.VERIF / "corpus" / "C05" / "*.json"))):
+        out.append((os.path.basename(f), OptCase.from_desc(json.load(open(f))["case"])))
+    return out
+
+
 def run(ctx: C.Ctx, want="C05"):
     rng = ctx.rng
     if ctx.thorough:
@@ -179,6 +208,10 @@ def run(ctx: C.Ctx, want="C05"):
     function_level(ctx, ctx.scale(2500, 40000))
     # ---- end to end ---------------------------------------------------------------------
     todo = []
+    for name, case in corpus_cases():
+        ctx.evaluations += 1
+        ctx.count("corpus")
+        todo.append((name, case, case.run_real()))
     for idx in range(ctx.scale(220, 5000)):
         case = gen_e2e(ctx, rng)
         if case is None:
@@ -193,12 +226,15 @@ def run(ctx: C.Ctx, want="C05"):
         if not judge_gqr_case(ctx, case, res, J, idx, "gqr"):
             continue
         ok, cnt = counts_ok(opt, res["ranking"], L, N, s)
+        A = case.gqr["all_sensors"].tolist()
         if not ok:
+            sig = f"region-count:{opt}"
+            if tie_deviation(ctx, case, res, J, N):
+                sig = "region-count:supplied-ranking-breaks-an-exact-tie-differently"
             ctx.violation("concrete",
                           f"GQR {opt}: first N={N} sensors {res['ranking'][:N]} contain {cnt} region sensors (region {L}, allowance s={s})",
-                          {"signature": f"region-count:{opt}", "case": case.describe(), "observed": res["ranking"],
+                          {"signature": sig, "case": case.describe(), "observed": res["ranking"],
                            "required": {"max_n": f"≤ {s}", "exact_n": f"= {s}", "predetermined": f"first {N-s} outside, last {s} inside"}[opt], "index": idx})
-        A = case.gqr["all_sensors"].tolist()
         if res["ranking"][:N] != A[:N]:
             ctx.nontriv((opt, case.B.shape, tuple(L), N, s, tuple(res["ranking"][:N])))
             ctx.count("constraint_active")
